@@ -852,6 +852,12 @@ func putContractState(d *dao.Simple, managementID int32, cs *state.Contract, upd
 	return nil
 }
 
+// MakeContractIDKey creates a key for the contract ID -> contract hash record of
+// the Management native contract.
+func MakeContractIDKey(id int32) []byte {
+	return putHashKey(make([]byte, 5), id)
+}
+
 func putHashKey(buf []byte, id int32) []byte {
 	buf[0] = prefixContractHash
 	binary.BigEndian.PutUint32(buf[1:], uint32(id))
